@@ -3,6 +3,7 @@ package main
 import (
 	"crypto/sha256"
 	"fmt"
+	"github.com/filecoin-project/go-f3/gpbft"
 	"sort"
 	"strings"
 	"sync"
@@ -22,8 +23,45 @@ type Mode struct {
 	Early    bool
 	Byz      bool
 	Liveness bool
+	Policy   Policy
 	Horizon  int
 	syncRun  bool // set per execution: no deviation at all
+}
+
+// Policy changes the deterministic base schedule around which deviations are explored ("start from
+// non-initial states too"): a lagging participant whose inbox is withheld for a while, or a partition of
+// the honest participants with a Byzantine participant that echoes every honest vote back to its sender.
+type Policy struct {
+	Kind       string  // "", "lag", "partition"
+	Lagger     int     // lag: participant whose incoming messages are withheld
+	FlushRound uint64  // lag: the inbox is released once another honest participant reaches this round (or is done)
+	LIFO       bool    // lag: release newest first
+	Groups     [][]int // partition: groups of honest participants; cross-group messages are withheld
+	HealAfter  int     // partition: events after which the partition heals (0: never)
+	Echo       bool    // partition: the Byzantine participant echoes every honest vote to its sender
+	Slow       []Link  // slow: messages of the given phase on the given link arrive one timeout late (held until after the next timer event)
+}
+
+// Link is a directed honest-to-honest link for one phase.
+type Link struct {
+	From, To int
+	Phase    gpbft.Phase
+}
+
+func (p Policy) String() string {
+	switch p.Kind {
+	case "lag":
+		return fmt.Sprintf("lag(p%d until round %d, lifo=%v)", p.Lagger, p.FlushRound, p.LIFO)
+	case "partition":
+		return fmt.Sprintf("partition(%v heal@%d echo=%v)", p.Groups, p.HealAfter, p.Echo)
+	case "slow":
+		var ls []string
+		for _, l := range p.Slow {
+			ls = append(ls, fmt.Sprintf("p%d>p%d:%s", l.From, l.To, l.Phase))
+		}
+		return "slow(" + strings.Join(ls, ",") + ")"
+	}
+	return "sync"
 }
 
 type node struct {
@@ -49,24 +87,24 @@ type stats struct {
 }
 
 type Explorer struct {
-	w       *world
-	mode    Mode
-	shards  [64]struct {
+	w      *world
+	mode   Mode
+	shards [64]struct {
 		sync.Mutex
 		m map[[16]byte]int8
 	}
-	stackMu sync.Mutex
-	stack   []node
-	pending atomic.Int64
-	st      stats
-	mu      sync.Mutex
-	ends    map[string]int64
+	stackMu  sync.Mutex
+	stack    []node
+	pending  atomic.Int64
+	st       stats
+	mu       sync.Mutex
+	ends     map[string]int64
 	outcomes map[string]struct{}
-	found   map[string]found
+	found    map[string]found
 	deadline time.Time
 	timedOut atomic.Bool
-	workers int
-	sample  []string
+	workers  int
+	sample   []string
 }
 
 func newExplorer(w *world, mode Mode, workers int, deadline time.Time) *Explorer {
@@ -161,7 +199,7 @@ func (e *Explorer) Run(K int) (completed int) {
 }
 
 func isDeviation(label string) bool {
-	return label[0] != 'D' && label[0] != 'T'
+	return label[0] != 'D' && label[0] != 'T' && label[0] != 'P'
 }
 
 func (e *Explorer) runNode(n node) {
